@@ -548,16 +548,30 @@ theorem attrs_or_nss_eq (w : WF m a) (hn : n < a.length) (k : Kind) (hk : k = .a
       have := w.owner x n hx hp han
       simp [this] at he
 
-theorem attribute_eq (w : WF m a) (hn : n < a.length) (hk : okF01c a .attribute n = true) :
+theorem attribute_eq (w : WF m a) (hn : n < a.length) :
     iterAxis m a .attribute n = (allNodes a).filter (onAxis m a .attribute n) := by
-  have hk' : (kd a n == .attr) = false := by simpa [okF01c] using hk
-  simp only [iterAxis, iterAttributes, hk', Bool.false_eq_true, if_false]
-  have := attrs_or_nss_eq w hn .attr (Or.inl rfl)
-  unfold attrsOf
-  rw [show (if (kd a n == Kind.elem) = true then
-        List.filter (fun i => par a i == some n && kd a i == Kind.attr) (List.range' (n + 1) (sz a n)) else [])
-      = _ from this]
-  rfl
+  simp only [iterAxis, attributeAxis]
+  cases hk : kd a n == .attr with
+  | true =>
+    -- an attribute node has no attributes: `select__attribute_reference_or_axis` returns at once
+    simp only [if_true]
+    symm
+    rw [List.filter_eq_nil_iff]
+    intro i hi
+    have hi' : i < a.length := List.mem_range.1 hi
+    have hed : isED a n = false := by
+      have : kd a n = .attr := by simpa using hk
+      simp [isED, this]
+    have := w.leaf_no_child hi' hed hn
+    simp [onAxis, this]
+  | false =>
+    simp only [Bool.false_eq_true, if_false, iterAttributes, hk]
+    have := attrs_or_nss_eq w hn .attr (Or.inl rfl)
+    unfold attrsOf
+    rw [show (if (kd a n == Kind.elem) = true then
+          List.filter (fun i => par a i == some n && kd a i == Kind.attr) (List.range' (n + 1) (sz a n)) else [])
+        = _ from this]
+    rfl
 
 theorem namespace_eq (w : WF m a) (hn : n < a.length) :
     iterAxis m a .namespace n = (allNodes a).filter (onAxis m a .namespace n) := by
@@ -583,10 +597,10 @@ theorem not_v_of_pos {x : Nat} (h : 0 < x) : isDummyDoc m x = false := by
   have : (x == 0) = false := by simp; omega
   simp [this]
 
-theorem following_eq (w : WF m a) (hn : n < a.length) (hk : okF01b a .following n = true) :
-    iterAxis m a .following n = (allNodes a).filter (onAxis m a .following n) := by
-  have han : isAN a n = false := by simpa [okF01b] using hk
-  simp only [iterAxis, iterFollowings, han, Bool.false_or]
+/-- the pinned helper `iter_followings`, for the context kinds it serves -/
+theorem iterFollowings_eq (w : WF m a) (hn : n < a.length) (han : isAN a n = false) :
+    iterFollowings m a n = (allNodes a).filter (onAxis m a .following n) := by
+  simp only [iterFollowings, han, Bool.false_or]
   cases hd : kd a n == .doc with
   | true =>
     simp only [if_true]
@@ -796,15 +810,108 @@ theorem preceding_eq (w : WF m a) (hn : n < a.length) :
               rw [this] at hax; cases hax
         · exact hxn
 
+/-- the following axis, every context kind: for an attribute / namespace node the axis method walks
+the owner's descendants, then the owner's following nodes -/
+theorem following_eq (w : WF m a) (hn : n < a.length) :
+    iterAxis m a .following n = (allNodes a).filter (onAxis m a .following n) := by
+  simp only [iterAxis, followingAxis]
+  cases han : isAN a n with
+  | false => simp only [Bool.false_eq_true, if_false]; exact iterFollowings_eq w hn han
+  | true =>
+    simp only [if_true]
+    have hleaf := w.leaf n hn (isED_false_of_AN han)
+    have hvn : isDummyDoc m n = false := by
+      cases hv : isDummyDoc m n with
+      | false => rfl
+      | true =>
+        obtain ⟨_, rfl, h0, _⟩ := w.v_is_doc hv
+        rw [isAN_false_of_doc h0] at han; cases han
+    have hspec : ∀ x, x < a.length → (onAxis m a .following n x = true ↔ (n < x ∧ isAN a x = false)) := by
+      intro x hx
+      have hanc : isAnc a n x = false := by
+        cases h : isAnc a n x with
+        | false => rfl
+        | true => have := (isAnc_iff w hx).1 h; omega
+      simp only [onAxis, isV_eq, isAttrOrNs_eq, hvn, hanc, Bool.not_false, Bool.true_and, Bool.and_true,
+        Bool.and_eq_true, Bool.not_eq_true', decide_eq_true_eq]
+      constructor
+      · rintro ⟨⟨_, h1⟩, h2⟩; exact ⟨h1, h2⟩
+      · rintro ⟨h1, h2⟩; exact ⟨⟨not_v_of_pos (by omega), h1⟩, h2⟩
+    cases hp : par a n with
+    | none =>
+      -- no owner: impossible for an attribute / namespace record of a well-formed array
+      exfalso
+      have hr := w.root_of_none hn hp
+      unfold isRoot at hr
+      simp only [Bool.or_eq_true, beq_iff_eq, Bool.and_eq_true] at hr
+      have hs := w.shape
+      rcases hr with rfl | ⟨rfl, rfl⟩
+      · cases m <;> simp only at hs
+        · rw [isAN_false_of_doc hs.1] at han; cases han
+        · rw [isAN_false_of_doc hs.1] at han; cases han
+        · rw [isAN_false_of_elem hs.1] at han; cases han
+      · simp only at hs; rw [isAN_false_of_elem hs.2.2.2.1] at han; cases han
+    | some p =>
+      simp only
+      have ⟨hpn, hnp⟩ := w.parLt n p hn hp
+      have hpl : p < a.length := by omega
+      have hpe : kd a p = .elem := w.owner n p hn hp han
+      have hpan : isAN a p = false := isAN_false_of_elem hpe
+      rw [iterFollowings_eq w hpl hpan]
+      have hvp : isDummyDoc m p = false := by
+        cases hv : isDummyDoc m p with
+        | false => rfl
+        | true => obtain ⟨_, rfl, h0, _⟩ := w.v_is_doc hv; rw [h0] at hpe; cases hpe
+      -- membership of the second part
+      have hfol : ∀ x, x ∈ (allNodes a).filter (onAxis m a .following p) ↔
+          x < a.length ∧ p + sz a p < x ∧ isAN a x = false := by
+        intro x
+        simp only [allNodes, List.mem_filter, List.mem_range, onAxis, isV_eq, isAttrOrNs_eq, hvp,
+          Bool.not_false, Bool.true_and, Bool.and_eq_true, Bool.not_eq_true', decide_eq_true_eq]
+        constructor
+        · rintro ⟨hx, ⟨⟨⟨_, h1⟩, h2⟩, h3⟩⟩
+          refine ⟨hx, ?_, h3⟩
+          by_cases hle : x ≤ p + sz a p
+          · have := (isAnc_iff w hx).2 ⟨h1, hle⟩; rw [this] at h2; cases h2
+          · omega
+        · rintro ⟨hx, h1, h3⟩
+          refine ⟨hx, ⟨⟨⟨not_v_of_pos (by omega), by omega⟩, ?_⟩, h3⟩⟩
+          cases h : isAnc a p x with
+          | false => rfl
+          | true => have := (isAnc_iff w hx).1 h; omega
+      apply eq_range_filter
+      · rw [List.pairwise_append]
+        refine ⟨descRange_sorted p, range_filter_sorted _ _, ?_⟩
+        intro x hx y hy
+        have h1 := (mem_descRange p x).1 hx
+        have h2 := (hfol y).1 hy
+        omega
+      · intro x
+        rw [List.mem_append, mem_descRange, hfol]
+        have hb := w.bound p hpl
+        constructor
+        · rintro (⟨h1, h2, h3⟩ | ⟨hx, h1, h3⟩)
+          · have hx : x < a.length := by omega
+            refine ⟨hx, (hspec x hx).2 ⟨?_, h3⟩⟩
+            -- between the owner and the attribute there are only attribute / namespace records
+            by_cases hlt : n < x
+            · exact hlt
+            · exfalso
+              by_cases he : x = n
+              · subst he; rw [han] at h3; cases h3
+              · have := w.anFirst n p x hn hp han h1 (by omega)
+                rw [this] at h3; cases h3
+          · exact ⟨hx, (hspec x hx).2 ⟨by omega, h3⟩⟩
+        · rintro ⟨hx, hon⟩
+          have ⟨h1, h3⟩ := (hspec x hx).1 hon
+          by_cases hle : x ≤ p + sz a p
+          · exact Or.inl ⟨by omega, hle, h3⟩
+          · exact Or.inr ⟨hx, by omega, h3⟩
+
 /-! ### all thirteen -/
 
-/-- the steps on which the pinned tree is known to deviate (findings F01b, F01c) -/
-def axisOK (a : Arr) (ax : Axis) (n : Nat) : Bool := okF01b a ax n && okF01c a ax n
-
-theorem axis_eq (w : WF m a) (hn : n < a.length) (ax : Axis) (hok : axisOK a ax n = true) :
+theorem axis_eq (w : WF m a) (hn : n < a.length) (ax : Axis) :
     iterAxis m a ax n = (allNodes a).filter (onAxis m a ax n) := by
-  unfold axisOK at hok
-  rw [Bool.and_eq_true] at hok
   cases ax with
   | self => exact self_eq hn
   | child => exact child_eq w hn
@@ -815,9 +922,9 @@ theorem axis_eq (w : WF m a) (hn : n < a.length) (ax : Axis) (hok : axisOK a ax 
   | ancestorOrSelf => exact ancestorOrSelf_eq w hn
   | followingSibling => exact followingSibling_eq w hn
   | precedingSibling => exact precedingSibling_eq w hn
-  | following => exact following_eq w hn hok.1
+  | following => exact following_eq w hn
   | preceding => exact preceding_eq w hn
-  | «attribute» => exact attribute_eq w hn hok.2
+  | «attribute» => exact attribute_eq w hn
   | «namespace» => exact namespace_eq w hn
 
 end EPV.XP
